@@ -18,10 +18,10 @@ import (
 	"github.com/vimeo/dials"
 	djson "github.com/vimeo/dials/decoders/json"
 	"github.com/vimeo/dials/ptrify"
-	"github.com/vimeo/dials/sourcewrap"
 	"github.com/vimeo/dials/sources/env"
 	dflag "github.com/vimeo/dials/sources/flag"
 	dpflag "github.com/vimeo/dials/sources/pflag"
+	"github.com/vimeo/dials/sourcewrap"
 	"github.com/vimeo/dials/transform"
 
 	"verifharness/internal/coqfmt"
@@ -589,6 +589,6 @@ func main() {
 	driver.Main(driver.Engine{
 		Prop: "C14", CoqImport: "Dials.Check.C14Check", CoqRun: "run_cases",
 		Rule: "random config types (scalar leaves of 11 kinds incl. durations and named scalars, nested value/pointer structs to depth 3, embedded structs) with dialsalias tags; every supplied value is the Go zero value of its type (false, 0, \"\", 0s) with probability 1/3 (plus dialsenvalias / dialsflagalias / dialspflagalias on leaves, with and without a primary tag, dialsdesc) on random leaf and struct-typed fields at any depth; up to 3 aliased targets per type, ALL 4^k neither/primary/alias/both patterns; other leaves set independently with probability 1/3; each type through one of: env source (with and without prefix), std flag source, pflag source, JSON decoder wrapped with ez's alias/reformat/set-slice manglers; non-trivial: at least one target and a pattern other than all-neither; distinct = distinct (type state, source, pattern)",
-		Gen: gen_, Run: run,
+		Gen:  gen_, Run: run,
 	})
 }
